@@ -95,7 +95,12 @@ Proof.
   apply Rnot_lt_le in Hy.
   destruct (Req_dec (sqrt (IZR N * Q - P * P) * sqrt (IZR N * W - T * T)) 0) as [Hz | Hz].
   { both_sides. }
-  both_sides.
+  (* a quotient is formed; it is then limited to [-1, 1] *)
+  destruct (Rlt_dec ((IZR N * U - P * T) / (sqrt (IZR N * Q - P * P) * sqrt (IZR N * W - T * T))) 1) as [H1 | H1].
+  - destruct (Rlt_dec (-1) ((IZR N * U - P * T) / (sqrt (IZR N * Q - P * P) * sqrt (IZR N * W - T * T)))) as [H2 | H2].
+    + both_sides.
+    + apply Rnot_lt_le in H2. both_sides.
+  - apply Rnot_lt_le in H1. both_sides.
 Qed.
 
 (* -------------------------------------------------- correlation: rescaling, collinear data *)
@@ -138,10 +143,11 @@ Qed.
 Definition r_of (xs ys : list R) : R :=
   corr_r (INR (length xs)) (Sx xs) (Sx2 xs) (Sx ys) (Sxy xs ys) (Sy2 ys).
 
-Lemma correlation_value xs ys : 0 < var_x xs -> 0 < var_y xs ys ->
+Lemma correlation_value xs ys : length xs = length ys -> 0 < var_x xs -> 0 < var_y xs ys ->
   CurveFitting_correlation_coeff Rops (cf_of xs ys) = VFloat (r_of xs ys).
 Proof.
-  intros Hx Hy. unfold cf_of, r_of. rewrite correlation_formula; rewrite ?IZR_len; [reflexivity | exact Hx | exact Hy].
+  intros Hl Hx Hy. unfold cf_of, r_of. rewrite correlation_formula; rewrite ?IZR_len;
+    [reflexivity | exact Hx | exact Hy | apply corr_bound; assumption].
 Qed.
 
 Lemma sgn_pos a : 0 < a -> a / Rabs a = 1.
@@ -162,6 +168,7 @@ Proof.
   intros Hl Hx Hy Ha.
   assert (Hl' : length (map (aff a b) xs) = length ys) by (rewrite map_length; exact Hl).
   rewrite correlation_value.
+  2: exact Hl'.
   - unfold r_of. rewrite map_length, Sx_aff, Sx2_aff, (Sxy_aff_l a b xs ys Hl).
     f_equal. apply corr_r_scale_x; assumption.
   - rewrite var_x_aff. apply Rmult_lt_0_compat; [destruct (Rdichotomy _ _ Ha); nra | exact Hx].
@@ -175,6 +182,7 @@ Proof.
   intros Hl Hx Hy Ha.
   assert (Ey := var_y_aff a b xs ys Hl).
   rewrite correlation_value.
+  2: rewrite map_length; exact Hl.
   - unfold r_of. change Sy2 with Sx2. rewrite Sx_aff, Sx2_aff, (Sxy_aff_r a b xs ys Hl), <- Hl.
     f_equal. apply corr_r_scale_y; assumption.
   - exact Hx.
@@ -392,7 +400,7 @@ Lemma correlation_rescaling_all : forall xs ys a b, length xs = length ys ->
   /\ CurveFitting_correlation_coeff Rops (cf_of (map Ropp xs) ys) = VFloat (- r_of xs ys).
 Proof.
   intros xs ys a b Hl Hx Hy.
-  split; [exact (correlation_value xs ys Hx Hy) |].
+  split; [exact (correlation_value xs ys Hl Hx Hy) |].
   split; [| split].
   - intro Ha. rewrite correlation_rescale_x, correlation_rescale_y by (try assumption; lra).
     rewrite sgn_pos by exact Ha. rewrite Rmult_1_l. split; reflexivity.
